@@ -95,12 +95,15 @@ def gen_plain_dataset(rng, root, idx):
     flat, gz, lvl = h12.CONFIGS[idx % len(h12.CONFIGS)]
     ds = os.path.join(root, "ds")
     acc = FileAccessor(ds, flat=flat, gzip=gz, compresslevel=lvl)
-    info = {"type": "image", "scales": [{"key": k} for k in ("1mm", "2mm")]}
+    # scale keys are free-form path segments: a colon after a leading letter makes the relative path look like
+    # "scheme:rest" to anything that resolves it as a URL reference instead of appending it to the base URL
+    keys = [("1mm", "2mm"), ("iso:16nm", "2mm"), ("http:32nm", "32nm"), ("1mm", "x:y:z")][idx % 4]
+    info = {"type": "image", "scales": [{"key": k} for k in keys]}
     if rng.random() < 0.2:
         info = {"type": "image", "scales": []}
     acc.store_file("info", json.dumps(info).encode(), mime_type="application/json")
     chunks = []
-    for key in ("1mm", "2mm"):
+    for key in keys:
         for _ in range(rng.randrange(1, 4)):
             co = h12.gen_coords(rng)
             co = [abs(v) for v in co]
